@@ -78,3 +78,4 @@ class relative_to_tokens:
     # one token: the turn the path makes when it LEAVES the step's start, relative to the direction it arrived from
     ensures = dict({"C06.relative.one-token": "len(result) == 1"}, **{lab.replace("C06.", "C06.relative."): _subst(cl) for lab, cl in TU.get_relative_direction.ensures.items()})
     props = ["C06"]
+
